@@ -661,3 +661,13 @@ def c01_12(ctx):
     rp = [p for p in sym_paths(g) if p.term == 'return']
     if not rp or any(p.text() != NS('self.relabel(*args, **relabels)') for p in rp):
         ctx.fail(g, g.node, 'rename is no longer relabel')
+
+
+@obligation('C01.13', 'TABLES (guards by truth table) + NONE-VS-EMPTY', '_dictable:_data_columns_as_dict',
+            'a table with columns but no rows keeps its columns through every constructor spelling (dictable(d0), d0[cols], concat): "no data at all" is None or the empty LIST only - a mapping (a dict of empty columns, a dictable with zero rows: len() counts rows) is data and contributes its keys',
+            axioms=())
+def c01_13(ctx):
+    f = ctx.repo.fn('_dictable:_data_columns_as_dict')
+    data = f.params[0]
+    expect_guards(ctx, f, [('%s is None or (isinstance(%s, list) and %s == [])' % (data, data, data), 'return {}', 'no data'),
+                           ('isinstance(%s, dict)' % data, 'return dict_concat(tree_to_table(%s, columns)) if is_tree(columns) else dict(%s)' % (data, data), 'a mapping keeps its keys')], where=f.body)
